@@ -113,6 +113,10 @@ type hintUse struct {
 	fn    *ssa.Function
 	load  *ssa.UnOp
 	field int
+	// where the use takes effect and on which reader: the load itself, or — when the load sits in a private helper
+	// whose result reaches the capacity — the call of that helper in fn, with the reader it was called on
+	at   ssa.Instruction
+	base ssa.Value
 }
 
 // hintFields finds the int fields of ValueReader whose value reaches a capacity operand (directly or through
@@ -154,6 +158,15 @@ func (x *Ctx) hintFields() (st *types.Struct, uses []hintUse, hints map[int]bool
 			if v.Op == token.MUL {
 				if fa, ok := v.X.(*ssa.FieldAddr); ok && isVR(fa.X.Type()) {
 					onLoad(v, fa)
+				}
+			}
+		case *ssa.Call:
+			// what a private helper returns (`func (h *T) sliceSizeHint() int { … return h.lastSliceSize }`)
+			if callee := v.Call.StaticCallee(); callee != nil && x.isPrivateHelper(callee) && callee.Signature.Results().Len() == 1 {
+				for _, b := range callee.Blocks {
+					if ret, ok := b.Instrs[len(b.Instrs)-1].(*ssa.Return); ok {
+						trace(ret.Results[0], seen, onLoad)
+					}
 				}
 			}
 		}
@@ -206,9 +219,35 @@ func (x *Ctx) hintFields() (st *types.Struct, uses []hintUse, hints map[int]bool
 				for _, c := range caps {
 					fnn := fn
 					trace(c, map[ssa.Value]bool{}, func(u *ssa.UnOp, fa *ssa.FieldAddr) {
-						if !seenUse[u] {
-							seenUse[u] = true
-							uses = append(uses, hintUse{fnn, u, fa.Field})
+						if seenUse[u] {
+							return
+						}
+						seenUse[u] = true
+						if u.Parent() == fnn {
+							uses = append(uses, hintUse{fn: fnn, load: u, field: fa.Field, at: u, base: fa.X})
+							return
+						}
+						// the load sits in a private helper: the use is the helper's call in fnn
+						h := u.Parent()
+						pi := -1
+						for i, prm := range h.Params {
+							if unspill(fa.X) == ssa.Value(prm) {
+								pi = i
+							}
+						}
+						lifted := false
+						if pi >= 0 {
+							for _, bb := range fnn.Blocks {
+								for _, in2 := range bb.Instrs {
+									if call, ok := in2.(*ssa.Call); ok && call.Call.StaticCallee() == h && pi < len(call.Call.Args) {
+										uses = append(uses, hintUse{fn: fnn, load: u, field: fa.Field, at: call, base: call.Call.Args[pi]})
+										lifted = true
+									}
+								}
+							}
+						}
+						if !lifted {
+							uses = append(uses, hintUse{fn: h, load: u, field: fa.Field, at: u, base: fa.X})
 						}
 					})
 				}
@@ -380,8 +419,7 @@ func (x *Ctx) hintRules(r *core.Result, rs *core.RuleStat) {
 			}
 			rs.Instances++
 			key := fmt.Sprintf("%s:hint %s", fnKey(u.fn), name)
-			base := u.load.X.(*ssa.FieldAddr).X
-			if msg := x.refreshPostDominates(u.fn, u.load, base, f); msg != "" {
+			if msg := x.refreshPostDominates(u.fn, u.at, u.base, f); msg != "" {
 				r.Fail(rs, key, w.Pos(u.load.Pos()), "size hint "+name+" is used here to size an allocation but "+msg)
 			} else {
 				rs.OK(1)
@@ -401,7 +439,7 @@ func fnKey(fn *ssa.Function) string {
 }
 
 // refreshPostDominates: every path from the load to a function exit passes a store to field f of base with a refresh value.
-func (x *Ctx) refreshPostDominates(fn *ssa.Function, load *ssa.UnOp, base ssa.Value, f int) string {
+func (x *Ctx) refreshPostDominates(fn *ssa.Function, load ssa.Instruction, base ssa.Value, f int) string {
 	// refresh points: direct stores, and calls of private helpers that perform such a store on every path
 	viaHelper := map[ssa.Instruction]bool{}
 	ubase := unspill(base)
@@ -433,7 +471,7 @@ func (x *Ctx) refreshPostDominates(fn *ssa.Function, load *ssa.UnOp, base ssa.Va
 	}
 	start := pos{load.Block(), 0}
 	for i, ins := range load.Block().Instrs {
-		if ins == ssa.Instruction(load) {
+		if ins == load {
 			start.i = i + 1
 		}
 	}
